@@ -316,8 +316,8 @@ fn show(c: &Case) -> serde_json::Value {
 fn stages(tier: Tier) -> Vec<Box<dyn Stage>> {
     vec![
         gen_stage_show("inproc", RULE, tier.pick(12_000, 200_000), 1500, case_strategy, |c, ctx| check(c, ctx, false), show),
-        gen_stage_show("cli", RULE, tier.pick(800, 10_000), 200, case_strategy, |c, ctx| check(c, ctx, true), show),
-        gen_stage_show("built", "generated: 2-8 related genomes through ska build (tables with ambiguity codes rejected as outside the domain), ska distance -o file with generated min-freq/threads; == model. Non-trivial: a pair with both a SNP and a k-mer mismatch.", tier.pick(320, 5000), 150, built_strategy, check_built, |c| json!({"k": c.set.k, "samples": c.set.samples.len()})),
+        gen_stage_show("cli", RULE, tier.pick(1600, 20_000), 200, case_strategy, |c, ctx| check(c, ctx, true), show),
+        gen_stage_show("built", "generated: 2-8 related genomes through ska build (tables with ambiguity codes rejected as outside the domain), ska distance -o file with generated min-freq/threads; == model. Non-trivial: a pair with both a SNP and a k-mer mismatch.", tier.pick(640, 8000), 150, built_strategy, check_built, |c| json!({"k": c.set.k, "samples": c.set.samples.len()})),
     ]
 }
 
